@@ -88,6 +88,9 @@ func (t *c07Comm) SendAndReceive(m *dns.Msg, timeout *time.Duration) (*dns.Msg, 
 
 type retryComp struct{}
 
+// after a few hung Writes the rest of the run is not attempted (each costs a timeout and leaves a spinning goroutine)
+var c07Hangs int
+
 func init() { register("dnsretry", retryComp{}) }
 
 func (retryComp) Exec(op string) (result string, monitor string, class string, nontrivial bool) {
@@ -103,6 +106,9 @@ func (retryComp) Exec(op string) (result string, monitor string, class string, n
 		if f != "ok" && f != "ql" && f != "al" && f != "st" && f != "er" {
 			return "bad-op", "", "bad", false
 		}
+	}
+	if c07Hangs >= 3 {
+		return "HANG-SKIPPED", "Write did not return (earlier ops of this run hung; not attempted)", "hang", false
 	}
 	comm := &c07Comm{script: toks[1:]}
 	srv := sadns.NewServerDnsListener("example.org", comm)
@@ -138,8 +144,8 @@ func (retryComp) Exec(op string) (result string, monitor string, class string, n
 	var w wres
 	select {
 	case w = <-done:
-	case <-time.After(30 * time.Second):
-		client.VerifOut().VerifReleaseWaiters()
+	case <-time.After(10 * time.Second):
+		c07Hangs++
 		return "HANG", "Write did not return", "hang", false
 	}
 	comm.armed = false
